@@ -19,7 +19,10 @@ def gen_model_histories(ctx):
                           label="behaviour generation")
     scen = []
     for i, (_lvl, hist) in enumerate(out):
-        scen.append({"id": "mc%d" % i, "kind": "seq", "ttl": 2, "src": "tlc",
+        # model time units are seconds for a third of the histories; 700 ms units starting 300 ms or 900 ms behind a full second
+        # for the others (a filter that rounds or truncates its timestamps behaves differently there)
+        um, ph = [(1000, 0), (700, 300), (700, 900)][i % 3]
+        scen.append({"id": "mc%d" % i, "kind": "seq", "ttl": 2, "src": "tlc", "unit_ms": um, "phase_ms": ph,
                      "ops": [{"op": "tas", "v": h["v"], "now": h["now"]} for h in hist],
                      "expect": [{"res": h["res"], "size": h["size"]} for h in hist]})
     if len(scen) < 1000:
@@ -37,7 +40,8 @@ def gen_random_histories(ctx, n, length):
             dt = rng.choice([0, 0, 0, 1, 1, 1, 2, 3, TTL - 1, TTL, TTL + 1, -1, -1, -2, -TTL, -3 * TTL])
             now = max(0, now + dt)
             ops.append({"op": "tas", "v": rng.randrange(nv), "now": now})
-        scen.append({"id": "rnd%d" % i, "kind": "seq", "ttl": TTL, "ops": ops, "src": "random"})
+        um, ph = [(1000, 0), (700, 300), (300, 950), (1100, 500)][i % 4]
+        scen.append({"id": "rnd%d" % i, "kind": "seq", "ttl": TTL, "ops": ops, "src": "random", "unit_ms": um, "phase_ms": ph})
     return scen
 
 
@@ -85,6 +89,23 @@ def gen_conc(ctx, n, rounds):
              "vals": [2, 3, 6][i % 3], "seed": ctx.seed * 1000 + i, "src": "concurrent"} for i in range(n)]
 
 
+def gen_gated(ctx):
+    """caller A is held between hashing its value and taking the lock while others run - with clock readings before A's
+    (the filter discards everything), equal, later, and beyond the TTL (everything has expired)"""
+    scen, k = [], 0
+    X, Y = 1, 2
+    for pre in ([], [(X, 100)], [(Y, 100)], [(X, 95), (Y, 100)]):
+        for bops in ([(Y, 50)], [(X, 50)], [(Y, 101)], [(X, 101)], [(Y, 100 + TTL + 5)], [(X, 100 + TTL + 5)], [(Y, 50), (X, 60)], [(Y, 99), (Y, 101)]):
+            last = max([101] + [t for _v, t in bops])
+            post = [(X, last + 1), (Y, last + 1), (X, last + 2)]
+            um, ph = [(1000, 0), (700, 300)][k % 2]
+            scen.append({"id": "gated%d" % k, "kind": "gated", "ttl": TTL, "src": "gated", "unit_ms": um, "phase_ms": ph,
+                         "pre": [{"op": "tas", "v": v, "now": t} for v, t in pre], "a": {"op": "tas", "v": X, "now": 101},
+                         "b": [{"op": "tas", "v": v, "now": t} for v, t in bops], "post": [{"op": "tas", "v": v, "now": t} for v, t in post]})
+            k += 1
+    return scen
+
+
 def gen_stress(ctx, n, rounds):
     return [{"id": "stress%d" % i, "kind": "stress", "ttl": TTL, "procs": 8, "rounds": rounds,
              "vals": [50, 400, 3000][i % 3], "seed": ctx.seed * 1000 + 500 + i, "src": "stress"} for i in range(n)]
@@ -111,6 +132,7 @@ def run(ctx):
               ("random", gen_random_histories(ctx, 60 if quick else 400, 120 if quick else 200), TTL),
               ("capacity", gen_capacity(ctx, 6 if quick else 40), TTL),
               ("concurrent", gen_conc(ctx, 8 if quick else 40, 40 if quick else 150), TTL),
+              ("gated", gen_gated(ctx), TTL),
               ("stress", gen_stress(ctx, 3 if quick else 12, 8000 if quick else 30000), TTL)]
     n_events = 0
     for name, scen, ttl in groups:
